@@ -14,7 +14,9 @@ package c11
 import (
 	"bytes"
 	"fmt"
+	"os"
 	"runtime"
+	"strconv"
 	"sync"
 	"time"
 
@@ -118,6 +120,11 @@ func runSimCase(c *verdict.Ctx, idx int) {
 			net.ByzStep()
 		}
 	})
+	// one more height everywhere (without further misbehaviour): pairs reported during a height are turned into
+	// evidence when the following block is applied
+	if _, hi2 := net.MinMaxHeight(); hi2 >= hi {
+		net.RunSync(hi2+1, 60, 2000, nil)
+	}
 	// ---- completeness: conflicting votes that consensus has seen become evidence once their height is decided.
 	// Judged only where it is certain that the vote set saw the conflict: two validly signed ROUND-0 votes of
 	// one faulty validator (the round-0 vote sets exist from the start of a height), same type, different block
@@ -162,8 +169,12 @@ func runSimCase(c *verdict.Ctx, idx int) {
 			}
 			reportedOnce[k] = true
 			c.Count("sim.round0_equivocations_delivered_to_a_node", 1)
-			if v.Height > nd.Blocks.Height() {
-				continue // that height is not decided at this node yet
+			if v.Height+1 > nd.Blocks.Height() {
+				// the pool turns reported pairs into evidence when the next block is applied; a conflicting vote that
+				// itself completes the commit is reported only after that block has been applied (the report follows
+				// addVote, which runs finalizeCommit), so the pair becomes evidence one height later: judge only
+				// once the following height is decided here too
+				continue
 			}
 			found := false
 			match := func(ev types.Evidence) bool {
@@ -178,6 +189,25 @@ func runSimCase(c *verdict.Ctx, idx int) {
 				if b := nd.Blocks.LoadBlock(h); b != nil {
 					for _, ev := range b.Evidence.Evidence {
 						found = found || match(ev)
+					}
+				}
+			}
+			if !found && os.Getenv("VERIF_C11_DEBUG") != "" {
+				for _, d2 := range nd.Journal {
+					if d2.Kind == "vote" && d2.Vote != nil && d2.Vote.Height == v.Height && bytes.Equal(d2.Vote.ValidatorAddress, v.ValidatorAddress) {
+						fmt.Printf("DEBUG node %d step %d atHeight %d internal=%v vote %v\n", i, d2.Step, d2.AtHeight, d2.Internal, d2.Vote)
+					}
+				}
+				rs := nd.CS.GetRoundState()
+				fmt.Printf("DEBUG node %d now at %d/%d/%v store height %d halted=%q pending=%d\n", i, rs.Height, rs.Round, rs.Step, nd.Blocks.Height(), nd.Halted, len(pend))
+				for h := int64(1); h <= nd.Blocks.Height(); h++ {
+					if b := nd.Blocks.LoadBlock(h); b != nil {
+						fmt.Printf("DEBUG   block %d evidence %d commit round %d\n", h, len(b.Evidence.Evidence), func() int32 {
+							if b.LastCommit != nil {
+								return b.LastCommit.Round
+							}
+							return -1
+						}())
 					}
 				}
 			}
@@ -199,6 +229,11 @@ func runSimCase(c *verdict.Ctx, idx int) {
 }
 
 func runSimStage(c *verdict.Ctx) {
+	if v := os.Getenv("VERIF_C11_SIMCASE"); v != "" { // debug: one case only
+		k, _ := strconv.Atoi(v)
+		runSimCase(c, k)
+		return
+	}
 	n := c.N(150, 5000)
 	var wg sync.WaitGroup
 	jobs := make(chan int, 32)
